@@ -262,9 +262,12 @@ theorem C02_end_stops (endRe : Re) (hG : EndGuarded endRe) (trail rest : Text) (
     by line feeds; a final line feed is an empty last line), each either a line in which no `TAG[ \t]` starts —
     otherwise arbitrary: code, prose, other tags, unclosed quotes — or a tag line
     `pre ++ TAG ++ blanks ++ v ++ trail` satisfying `tagLineOK`: conditions on *that line alone* (shape; END
-    accepts the trail; the trail does not end with `"`, `'`, `]`; no tail of the value can begin a run of
-    terminators; the value is stripped and does not end like the mirrored frame).  Then `find_spdx_tag` returns
-    exactly the values of the tag lines, in order.  Supersedes `C02_tag_lines` (no per-text hypothesis). -/
+    accepts the trail; the trail does not end with `"`, `'`, `]`; `valueSafeIn`: no tail of the value can begin a
+    run of terminators, or none is taken for terminators in this line read alone and the line does not end with a
+    quote character; the value is stripped and does not end like the mirrored frame), or such a line inside an
+    ASCII-art frame (`pre ++ TAG ++ blanks ++ v ++ ws ++ mirror pre ++ trail`, `tagLineFramedOK`).  Then
+    `find_spdx_tag` returns exactly the values of the tag lines, in order.  Supersedes `C02_tag_lines` (no
+    per-text hypothesis). -/
 theorem C02_tag_lines_general (endRe : Re) (hG : EndGuarded endRe) (tag : Text) (hnl : '\n' ∉ tag)
     (ls : List TextLine) (hok : ∀ l ∈ ls, l.ok endRe tag = true) :
     findSpdxTagWith endRe tag (textOf tag ls) = ls.filterMap (·.value) :=
@@ -309,18 +312,27 @@ theorem C02_tag_lines_of_line_hyps (endRe : Re) (hG : EndGuarded endRe) (tag : T
     feed: it may hold tags, values running on, unclosed quotes — no "tag-free lines above" restriction as in
     `C02_tag_found_in_text`) and before any text, a tag line satisfying the line-local hypotheses contributes its
     value: the scan cannot jump over it, because the tag holds a character END cannot consume (`tagUnusable`). -/
-theorem C02_tag_found_anywhere (endRe : Re) (tag : Text) (hnl : '\n' ∉ tag) (hun : tagUnusable endRe tag = true)
+theorem C02_tag_found_anywhere (endRe : Re) (hG : EndGuarded endRe) (tag : Text) (hnl : '\n' ∉ tag)
+    (hun : tagUnusable endRe tag = true)
     (s : TagLineSpec) (hok : tagLineFound endRe tag s = true) (U after : Text)
     (hU : U = [] ∨ ∃ u, U = u ++ ['\n']) :
     s.v ∈ findSpdxTagWith endRe tag (U ++ (s.line tag ++ '\n' :: after)) :=
-  C02L.found_anywhere endRe tag hnl hun s hok U after hU
+  C02L.found_anywhere hG tag hnl hun s hok U after hU
+
+/-- … and so is a tag line inside an ASCII-art frame (`pre ++ TAG ++ blanks ++ v ++ ws ++ mirror pre ++ trail`). -/
+theorem C02_framed_tag_found_anywhere (endRe : Re) (hG : EndGuarded endRe) (tag : Text) (hnl : '\n' ∉ tag)
+    (hun : tagUnusable endRe tag = true)
+    (s : TagLineSpec) (ws : Text) (hok : tagLineFramedOK endRe tag s ws = true) (U after : Text)
+    (hU : U = [] ∨ ∃ u, U = u ++ ['\n']) :
+    s.v ∈ findSpdxTagWith endRe tag (U ++ ((s.framed ws).line tag ++ '\n' :: after)) :=
+  C02L.found_anywhere_framed hG tag hnl hun s ws hok U after hU
 
 /-- the hypotheses are satisfiable: a licence line after a contributor line whose quoted value runs on -/
 example : "MIT".toList ∈ findSpdxTagWith Generated.endRe Generated.licenseTag
     ("SPDX-FileContributor: \"Jane\n".toList ++
       ((⟨"# ".toList, " ".toList, "MIT".toList, " */".toList⟩ : TagLineSpec).line Generated.licenseTag ++
         '\n' :: "/> anything".toList)) :=
-  C02_tag_found_anywhere Generated.endRe Generated.licenseTag (by decide) (by decide +kernel) _
+  C02_tag_found_anywhere Generated.endRe C02_end_guarded Generated.licenseTag (by decide) (by decide +kernel) _
     (C02L.tagLineFound_of_ok (C02L.tagLineOK_of_syn Generated.endRe Generated.licenseTag _ [" ".toList, "*/".toList]
       (by decide +kernel))) _ _
     (.inr ⟨"SPDX-FileContributor: \"Jane".toList, by decide⟩)
@@ -633,11 +645,11 @@ theorem C02_extract_exact_syn (endRe : Re) (hG : EndGuarded endRe) (ls : List (I
   obtain ⟨p, hp, rfl⟩ := List.mem_map.mp hl
   exact C02L.infoLine_ok_of_syn endRe p.1 p.2 (hok p hp)
 
-/-- the hypotheses are satisfiable (`C02L.exampleLines`: a shebang line, two notices, three licence lines — one
-    duplicate, one with a parenthesised expression and trailing blank —, a contributor in a C comment, a line with
-    an unclosed quote, a final line feed) -/
+/-- the hypotheses are satisfiable (`C02L.exampleLines`: a shebang line, two notices, four licence lines — one
+    duplicate, one with a parenthesised expression and trailing blank, one inside the LLVM frame `|*  …  *|` —, a
+    contributor in a C comment, a line with an unclosed quote, a final line feed) -/
 example : extractRawWith Generated.endRe (infoTextOf (C02L.exampleLines.map (·.1))) =
-    { lic := ["MIT".toList, "(MIT OR X)".toList]
+    { lic := ["MIT".toList, "(MIT OR X)".toList, "Apache-2.0".toList]
       cpr := ["SPDX-FileCopyrightText: 2020 Jane Doe <jane@example.org>".toList,
               "Copyright (C) 2019-2021 Example Corp".toList]
       con := ["Alice".toList] } := by
@@ -657,7 +669,7 @@ theorem C02_file_exact (parses : Text → Bool) (ls : List InfoLine) (hok : ∀ 
   rw [C02L.window_all _ hfit, C02L.decodedText_encode _ (C02L.infoText_noCR ls hok)]
   exact C02L.infoOfDecoded_of_extract parses _ _ (C02_extract_exact Generated.endRe C02_end_guarded ls hok) hparse
 
-/-- the hypotheses are satisfiable: the example text as a file (239 bytes) -/
+/-- the hypotheses are satisfiable: the example text as a file (under 300 bytes) -/
 example : infoOfFile (fun _ => true) (encodeUtf8 (infoTextOf (C02L.exampleLines.map (·.1)))) =
     plantedInfo (C02L.exampleLines.map (·.1)) := by
   rw [C02_file_exact (fun _ => true) _ (by
@@ -794,18 +806,30 @@ theorem C02_window_finds_line (l : InfoLine) (hok : l.ok Generated.endRe = true)
     | lic s =>
       simp only [InfoLine.licValue, Option.some.injEq] at hv
       subst hv
-      exact C02_tag_found_anywhere Generated.endRe Generated.licenseTag (by decide) (by decide +kernel) s
+      exact C02_tag_found_anywhere Generated.endRe C02_end_guarded Generated.licenseTag (by decide) (by decide +kernel) s
         (C02L.tagLineFound_of_ok hlic) U _ hU
+    | licF s ws =>
+      simp only [InfoLine.licValue, Option.some.injEq] at hv
+      subst hv
+      exact C02_framed_tag_found_anywhere Generated.endRe C02_end_guarded Generated.licenseTag (by decide)
+        (by decide +kernel) s ws hlic U _ hU
     | con s => cases hv
+    | conF s ws => cases hv
     | cpr x y h pre trail => cases hv
     | other t => cases hv
   · cases l with
     | con s =>
       simp only [InfoLine.conValue, Option.some.injEq] at hv
       subst hv
-      exact C02_tag_found_anywhere Generated.endRe Generated.contributorTag (by decide) (by decide +kernel) s
+      exact C02_tag_found_anywhere Generated.endRe C02_end_guarded Generated.contributorTag (by decide) (by decide +kernel) s
         (C02L.tagLineFound_of_ok hcon) U _ hU
+    | conF s ws =>
+      simp only [InfoLine.conValue, Option.some.injEq] at hv
+      subst hv
+      exact C02_framed_tag_found_anywhere Generated.endRe C02_end_guarded Generated.contributorTag (by decide)
+        (by decide +kernel) s ws hcon U _ hU
     | lic s => cases hv
+    | licF s ws => cases hv
     | cpr x y h pre trail => cases hv
     | other t => cases hv
   · cases l with
@@ -816,6 +840,8 @@ theorem C02_window_finds_line (l : InfoLine) (hok : l.ok Generated.endRe = true)
       exact C02L.cprLines_embed Generated.endRe U _ _ hU (C02L.cprLine_text_noBreak _ _ hcpr) _ hread
     | lic s => cases hn
     | con s => cases hn
+    | licF s ws => cases hn
+    | conF s ws => cases hn
     | other t => cases hn
 
 /-- the hypotheses are satisfiable: a contributor line whose quoted value runs on, then the notice line, then a
